@@ -11,7 +11,7 @@ func init() {
 	register(&Profile{
 		Name:     "C18",
 		Property: "C18",
-		Gen:      genC18,
+		Gen:      func(g *Gen) *Plan { return swarm(g, genC18(g), 0.25, 0.0) },
 		Oracles: []func(o *Outcome) []Violation{
 			func(o *Outcome) []Violation {
 				if len(o.Plan.StoreFaults) > 0 {
@@ -22,7 +22,7 @@ func init() {
 		NonTrivial: func(o *Outcome) bool {
 			return o.Hist.Probes["request-after-purge-of-present-entry"] > 0
 		},
-		Rule:         "seeded plans: two caches behind two servers sharing one origin, 2-4 keys requested on both, named / unnamed purges of present and absent keys and of an absent cache placed before, during (origin replies withheld) and after fetches, expiry in between, with and without the simulated store. non-trivial = a request followed a completed purge of an entry that was installed before the purge began; distinct = distinct history hash",
+		Rule:         "seeded plans: two caches behind two servers sharing one origin, 2-4 keys requested on both, named / unnamed purges of present and absent keys and of an absent cache placed before, during (origin replies withheld) and after fetches, expiry in between, with and without the simulated store. in a quarter of the plans a tenth of the clients disconnect at a scheduler-chosen step (fault client-disconnect). non-trivial = a request followed a completed purge of an entry that was installed before the purge began; distinct = distinct history hash",
 		ExpectProbes: []string{"request-after-purge-of-present-entry", "purge-during-withheld-fetch", "purge-absent-key", "purge-absent-cache", "purge-unnamed", "purge-named", "other-cache-retained", "neighbour-retained", "store-checked-after-purge"},
 	})
 }
@@ -161,6 +161,12 @@ func oracleC18(o *Outcome) []Violation {
 				if m.ReturnSeq < 0 || !covers(m, cache, r.Key) {
 					continue
 				}
+				if storeDeleteFailed(o, m) {
+					// the store refused the delete: the persisted copy is still there through no
+					// fault of pike's (what is owed then is C10's business)
+					o.Hist.Probes["purge-with-failed-store-delete"]++
+					continue
+				}
 				if f.Addr == r.Addr && f.ReturnSeq >= 0 && f.ReturnSeq < m.InvokeSeq && r.InvokeSeq > m.ReturnSeq {
 					out = append(out, violation("C18", "served-purged-entry", "request after a completed purge answered from the purged entry",
 						"client op %d %s @%s (invoked seq %d) was answered without upstream contact from reply #%d, fetched by op %d which returned at seq %d, before purge(cache=%q) ran from seq %d to %d",
@@ -262,6 +268,16 @@ func oracleC18(o *Outcome) []Violation {
 func (p *Plan) withheldKey(k string) bool {
 	for _, w := range p.Withhold {
 		if w == k || w == "*" {
+			return true
+		}
+	}
+	return false
+}
+
+// storeDeleteFailed: a store delete issued by the purge m came back with an error.
+func storeDeleteFailed(o *Outcome, m *MiscRec) bool {
+	for _, s := range o.Hist.Stores {
+		if s.Task == m.Task && s.Op == "delete" && s.Err != "" {
 			return true
 		}
 	}
